@@ -1,4 +1,5 @@
 import SfVerif.Model.NanBox
+import SfVerif.Lemmas.Bits
 /-! C06 — NaN-boxed values are lossless, unambiguous, total and laid out as documented. -/
 namespace SfVerif.Props.C06
 open SfVerif SfVerif.Gen SfVerif.NanBox
@@ -36,5 +37,107 @@ theorem C06_total (w v : Nat) : tryDecode w v ≠ .panic := by
 theorem C06_tags :
     [Tag_Null, Tag_Bool, Tag_Number, Tag_String, Tag_Object, Tag_Array, Tag_Error] = [0, 1, 2, 3, 4, 5, 15] ∧
     MAX_TAG_VALUE 32 = 15 ∧ MAX_TAG_VALUE 64 = 15 := by decide +kernel
+
+
+/-! ### lossless round trips (all pointers, all lengths, both widths) -/
+
+/-- what `try_decode` answers for a tag once the fields are known -/
+def expect (t l p : Nat) : Decoded :=
+  if t = 1 then .ok (.bool (p != 0))
+  else if t = 0 then .ok .null
+  else if t = 2 then .decodeError
+  else if t = 5 then .ok (.array p l)
+  else if t = 3 then .ok (.string p l)
+  else if t = 4 then .ok (.object p l)
+  else if t = 15 then .ok (.error (errorCodeOf p))
+  else .decodeError
+
+theorem decode_box32 (t l p : Nat) (ht : t < 16) (hl : l < 2 ^ 14) (hp : p < 2 ^ 32) :
+    tryDecode 32 (8191 * 2 ^ 50 + t * 2 ^ 46 + l * 2 ^ 32 + p) = expect t l p := by
+  obtain ⟨f1, f2, f3, f4, f5⟩ := Bits.fields32 t l p ht hl hp
+  simp only [tryDecode, f1, f2, f3, f4, f5, ne_eq, not_true_eq_false, if_false, expect,
+    tag_bool, tag_null, tag_number, tag_array, tag_string, tag_object, tag_error]
+
+theorem decode_box64 (t l p : Nat) (ht : t < 16) (hl : l < 2 ^ 14) (hp : p < 2 ^ 64) :
+    tryDecode 64 (8191 * 2 ^ 114 + t * 2 ^ 110 + l * 2 ^ 64 + p) = expect t l p := by
+  obtain ⟨f1, f2, f3, f4, f5⟩ := Bits.fields64 t l p ht hl hp
+  simp only [tryDecode, f1, f2, f3, f4, f5, ne_eq, not_true_eq_false, if_false, expect,
+    tag_bool, tag_null, tag_number, tag_array, tag_string, tag_object, tag_error]
+
+/-- **strings, arrays and objects survive boxing (32-bit): any pointer, any length; lengths up to
+    2^14-1 are kept, larger ones read back as exactly 2^14-1** -/
+theorem C06_roundtrip32 (ptr len : Nat) (hp : ptr < 2 ^ 32) :
+    tryDecode 32 (string 32 ptr len) = .ok (.string ptr (min len (2 ^ 14 - 1))) ∧
+    tryDecode 32 (obj 32 ptr len) = .ok (.object ptr (min len (2 ^ 14 - 1))) ∧
+    tryDecode 32 (array 32 ptr len) = .ok (.array ptr (min len (2 ^ 14 - 1))) := by
+  have hm : ptr % 2 ^ 32 = ptr := Nat.mod_eq_of_lt hp
+  have hl : min len 16383 < 2 ^ 14 := by omega
+  refine ⟨?_, ?_, ?_⟩
+  · rw [string, tag_string, Bits.encode32_eq _ _ 3 (by omega), hm, decode_box32 3 _ ptr (by omega) hl hp]; rfl
+  · rw [obj, tag_object, Bits.encode32_eq _ _ 4 (by omega), hm, decode_box32 4 _ ptr (by omega) hl hp]; rfl
+  · rw [array, tag_array, Bits.encode32_eq _ _ 5 (by omega), hm, decode_box32 5 _ ptr (by omega) hl hp]; rfl
+
+/-- the same on the 64-bit configuration -/
+theorem C06_roundtrip64 (ptr len : Nat) (hp : ptr < 2 ^ 64) :
+    tryDecode 64 (string 64 ptr len) = .ok (.string ptr (min len (2 ^ 14 - 1))) ∧
+    tryDecode 64 (obj 64 ptr len) = .ok (.object ptr (min len (2 ^ 14 - 1))) ∧
+    tryDecode 64 (array 64 ptr len) = .ok (.array ptr (min len (2 ^ 14 - 1))) := by
+  have hm : ptr % 2 ^ 64 = ptr := Nat.mod_eq_of_lt hp
+  have hl : min len 16383 < 2 ^ 14 := by omega
+  refine ⟨?_, ?_, ?_⟩
+  · rw [string, tag_string, Bits.encode64_eq _ _ 3 (by omega), hm, decode_box64 3 _ ptr (by omega) hl hp]; rfl
+  · rw [obj, tag_object, Bits.encode64_eq _ _ 4 (by omega), hm, decode_box64 4 _ ptr (by omega) hl hp]; rfl
+  · rw [array, tag_array, Bits.encode64_eq _ _ 5 (by omega), hm, decode_box64 5 _ ptr (by omega) hl hp]; rfl
+
+/-- booleans, null and every error code survive boxing on both widths -/
+theorem C06_roundtrip_small :
+    (∀ b : Bool, tryDecode 32 (NanBox.bool 32 b) = .ok (.bool b) ∧ tryDecode 64 (NanBox.bool 64 b) = .ok (.bool b)) ∧
+    tryDecode 32 (null 32) = .ok .null ∧ tryDecode 64 (null 64) = .ok .null ∧
+    (∀ c, c ≤ 7 → tryDecode 32 (error 32 c) = .ok (.error c) ∧ tryDecode 64 (error 64 c) = .ok (.error c)) := by
+  refine ⟨?_, by decide +kernel, by decide +kernel, by decide +kernel⟩
+  intro b; cases b <;> decide +kernel
+
+/-- **every non-NaN double survives bit for bit and is never taken for a boxed value** (both widths) -/
+theorem C06_number_exact (bits : Nat) (hb : bits < 2 ^ 64) (hn : F64.isNaN bits = false) :
+    (number 32 bits = some bits ∧ tryDecode 32 bits = .ok (.number bits)) ∧
+    (number 64 bits = some (bits * 2 ^ 64) ∧ tryDecode 64 (bits * 2 ^ 64) = .ok (.number bits)) := by
+  have hnan : ¬ (bits / 2 ^ 52 % 2048 = 2047 ∧ bits % 2 ^ 52 ≠ 0) := by
+    simp [F64.isNaN, F64.expField, F64.manField] at hn
+    intro h; exact h.2 (hn h.1)
+  have h8191 : (8191 : Nat) = 2 ^ 13 - 1 := by decide
+  obtain ⟨a1, _, _, _, _, _, _, a8⟩ := Bits.consts32
+  obtain ⟨b1, _, _, _, _, _, _, b8⟩ := Bits.consts64
+  refine ⟨⟨?_, ?_⟩, ⟨?_, ?_⟩⟩
+  · simp [number, hn, a8]
+  · have hne : bits &&& NAN_MASK 32 ≠ NAN_MASK 32 := by
+      rw [a1, Bits.and_shl_mask, h8191, Nat.and_two_pow_sub_one_eq_mod, Nat.shiftRight_eq_div_pow,
+        Nat.shiftLeft_eq, Nat.shiftLeft_eq]
+      omega
+    simp only [tryDecode, hne, ne_eq, not_false_eq_true, if_true, a8, Nat.shiftRight_zero]
+    rw [Nat.mod_eq_of_lt hb]
+  · simp [number, hn, b8, Nat.shiftLeft_eq]
+  · have hne : (bits * 2 ^ 64) &&& NAN_MASK 64 ≠ NAN_MASK 64 := by
+      rw [b1, Bits.and_shl_mask, h8191, Nat.and_two_pow_sub_one_eq_mod, Nat.shiftRight_eq_div_pow,
+        Nat.shiftLeft_eq, Nat.shiftLeft_eq]
+      omega
+    simp only [tryDecode, hne, ne_eq, not_false_eq_true, if_true, b8, Nat.shiftRight_eq_div_pow]
+    have : bits * 2 ^ 64 / 2 ^ 64 = bits := by omega
+    rw [this, Nat.mod_eq_of_lt hb]
+
+/-- the reverse: every box the encoder produces is a NaN when read as a double, with the sign
+    bit clear (so it can never be mistaken for a number) -/
+theorem C06_box_is_nan (ptr len tag : Nat) (ht : tag < 16) :
+    F64.isNaN (NanBox.encode 32 ptr len tag) = true ∧ NanBox.encode 32 ptr len tag < 2 ^ 63 ∧
+    F64.isNaN (NanBox.encode 64 ptr len tag / 2 ^ 64) = true ∧ NanBox.encode 64 ptr len tag < 2 ^ 127 := by
+  rw [Bits.encode32_eq _ _ _ ht, Bits.encode64_eq _ _ _ ht]
+  have hl : min len 16383 ≤ 16383 := Nat.min_le_right _ _
+  have hp : ptr % 2 ^ 32 < 2 ^ 32 := Nat.mod_lt _ (by decide)
+  have hq : ptr % 2 ^ 64 < 2 ^ 64 := Nat.mod_lt _ (by decide)
+  simp only [F64.isNaN, F64.expField, F64.manField, Bool.and_eq_true, beq_iff_eq, bne_iff_ne, ne_eq]
+  refine ⟨⟨by omega, by omega⟩, by omega, ⟨by omega, by omega⟩, by omega⟩
+
+/-- non-vacuity: a concrete 20000-byte string handle on the 32-bit layout -/
+example : tryDecode 32 (string 32 0x1234 20000) = .ok (.string 0x1234 16383) := by
+  have := (C06_roundtrip32 0x1234 20000 (by decide)).1; simpa using this
 
 end SfVerif.Props.C06
